@@ -316,9 +316,10 @@ def isolate_crash(pid, seed, tier, tag, log, crash_output):
             cases = cases[len(cases) // 2:]
     c = cases[0]
     # within the case: drop ops while the process still dies (the ops of a batch case run concurrently)
+    # (the last op is kept: for several properties it is the one the oracle judges - `finish` of the receive loop)
     ops = list(c["ops"])
     i = 0
-    while len(ops) > 1 and i < len(ops):
+    while len(ops) > 2 and i < len(ops) - 1:
         cand = ops[:i] + ops[i + 1:]
         b, o2 = crashes([{"id": c["id"], "variant": c["variant"], "ops": cand}], tries=2)
         if b:
